@@ -14,7 +14,7 @@ class C05(Prop):
     rule = 'completeness: boxes 0..60 x 0..30 (quick: a sample) x offsets x corner styles (sharp, rounded, box drawing, rounded box drawing) x edge styles (- ~ and dashed box drawing) x sides with : or ! stretches x interior label text; soundness: every rect element in the output of random grids over {- | + . \' ` , ~ : ! space}; non-trivial when the output has a rect element besides the backdrop'
     level_text = ('Theorems C05_rect_only_for_an_outline / C05_outline_means_four_edges_present (is_rect accepts only four lines that are the four edges of their bounding box: soundness of the endorsement, for all fragment lists), C05_recognition_anywhere (C06), C05_side_of_any_length_is_one_line (C09 chains), '
                   "C05_boxes_are_recognised (completeness: every box of the eight standard styles - sharp, ~, rounded . ' and , `, rounded ~, box drawing, rounded and dashed box drawing - with up to 16 x 8 interior cells is recognised by the whole recognition of the model as exactly one rectangle through the centres of its border cells, with the radius and dash class of its style, and nothing else; sweep inside Coq on the regenerated tables) and C05_boxes_are_recognised_anywhere_in_context (the same box at any offset, next to any content that does not touch it: exactly that rectangle, moved, comes from its cells; by C06 and C10). "
-                  'Larger boxes, sides with dashed stretches and interior text are decided by correspondence and oracle.')
+                  'C05_box_with_text_inside (a label at every interior position of small boxes of all eight styles, also flush against a wall: the rectangle and the label, nothing else) and C05_box_with_dashed_stretch (every stretch of : or ! in the sides of sharp boxes with 2..5 interior rows: one dashed rectangle), swept inside Coq. Larger boxes are decided by correspondence and oracle (also several copies of one box in a drawing, and boxes at many offsets).')
     level_note = 'partial: completeness beyond 16 x 8 interior cells relies on correspondence plus oracle; soundness of is_rect is proved for all inputs'
     def box_item(self, rng, w, h, style, x, y, sidepat, inner):
         c, hz, vt, rx, dashed = style
@@ -48,7 +48,24 @@ class C05(Prop):
                     # plain text anywhere inside, also touching the border (first/last interior row and column, a row filled edge to edge)
                     lab = rng.choice(['a', 'ok', 'x1', 'label', 'T', 'é', 'no 7'])[:w]
                     inner = [''] * h; inner[rng.randrange(h)] = ' ' * rng.randint(0, w - len(lab)) + lab
-                out.append(self.box_item(rng, w, h, style, rng.choice([0, 1, 5]), rng.choice([0, 2]), sidepat, inner))
+                out.append(self.box_item(rng, w, h, style, rng.choice([0, 1, 5, 33]), rng.choice([0, 2, 7, 40]), sidepat, inner))
+        # the same box several times in one drawing (side by side or stacked, one blank column / row apart or more): one rect each, each in its place
+        for _ in range(120 if tier == 'quick' else 2500):
+            style = rng.choice(STYLES); c, hz, vt, rx, dashed = style
+            w = rng.randint(1 if rx else 0, 6); h = rng.randint(0, 3); n = rng.randint(2, 3); gap = rng.randint(1, 3)
+            lab = rng.choice(['', '', 'a', 'ok'])[:w]
+            box = [c[0] + hz * w + c[1]] + [vt + (lab if j == 0 else '').ljust(w) + vt for j in range(h)] + [c[2] + hz * w + c[3]]
+            x0 = rng.choice([0, 2]); y0 = rng.choice([0, 1, 5])
+            if rng.random() < 0.5:
+                rows = [(' ' * gap).join([r] * n) for r in box]; places = [(x0 + k * (w + 2 + gap), y0) for k in range(n)]
+            else:
+                rows = []; places = []
+                for k in range(n):
+                    places.append((x0, y0 + len(rows))); rows += box + [''] * gap
+            text = gens.place(rows, x0, y0)
+            anyd = bool(dashed and ((hz in '~┄' and w > 0) or (vt in '┆' and h > 0)))
+            exp = [{'x': px * 40 + 20, 'y': py * 80 + 40, 'w': (w + 1) * 40, 'h': (h + 1) * 80, 'rx': rx or 0, 'dashed': anyd} for px, py in places]
+            out.append(Item('copies', {'main': Run(text, '', 'settings')}, {'text': text, 'expect_all': exp}))
         A = list("-|+.'`,~:! ")
         for _ in range(1500 if tier == 'quick' else 60000):
             w = rng.randint(2, 12); h = rng.randint(2, 7); d = rng.choice([0.5, 0.7, 0.9])
@@ -83,6 +100,11 @@ class C05(Prop):
                 for c in (c0, c1):
                     if at(c, r) not in VT: out.append('rect from cell (%d,%d) to (%d,%d): no border character at (%d,%d): %r' % (c0, r0, c1, r1, c, r, at(c, r))); break
             if len(out) > 3: break
+        many = it.meta.get('expect_all')
+        if many and not out:
+            got = sorted((F(e.get('x')) * 5, F(e.get('y')) * 5, F(e.get('width')) * 5, F(e.get('height')) * 5, F(e.get('rx') or 0) * 5, 'broken' in (e.get('class') or '').split()) for e in rects)
+            want = sorted((F(x['x']), F(x['y']), F(x['w']), F(x['h']), F(x['rx']), x['dashed']) for x in many)
+            if got != want: out.append('%d copies of a box: expected the rects %s, got %s' % (len(many), [tuple(str(v) for v in t) for t in want], [tuple(str(v) for v in t) for t in got]))
         exp = it.meta.get('expect')
         if exp and not out:
             els = [e for _, e in elements(root) if e.get('class') != 'backdrop' and e.tag != 'text']
